@@ -45,9 +45,13 @@ impl<F: Field> SparseMultilinearExtension<F> {
                 (*i, *v)
             })
             .collect();
+        // A sparse extension only stores its non-zero evaluations (a later
+        // entry for the same index overrides an earlier one).
+        let mut evaluations = tuples_to_treemap(&evaluations);
+        evaluations.retain(|_, v| !v.is_zero());
 
         Self {
-            evaluations: tuples_to_treemap(&evaluations),
+            evaluations,
             num_vars,
             zero: F::zero(),
         }
